@@ -71,7 +71,41 @@ pub struct Case {
     pub depth_ops: usize,
 }
 
+const CLUSTERS: &[&[&str]] = &[
+    &["timeout", "timeot", "timer", "time", "timeo", "tiemout", "timeouts"],
+    &["rename", "renmae", "rename_all", "renam", "renames", "rname"],
+    &["default", "defualt", "defaults", "defalt", "defaul"],
+];
+
+/// a "suggestion chain": an unknown name close to several candidate sets offered one after the
+/// other (what a flatten chain of depth 2..4 does through add_sibling_alts)
+fn gen_chain_case(r: &mut Rng) -> Case {
+    let cl = *r.pick(CLUSTERS);
+    let name = *r.pick(cl);
+    let mut prog = vec![];
+    let k0 = r.below(3);
+    let first: Vec<&str> = (0..k0).map(|_| *r.pick(cl)).collect();
+    let mut e = Error::unknown_field_with_alts(name, &first);
+    prog.push(tagged("unknown_alts", vec![st(name), alts_sx(name, &first)]));
+    let levels = r.range(1, 4);
+    for _ in 0..levels {
+        let k = r.range(1, 2);
+        let alts: Vec<&str> = (0..k).map(|_| *r.pick(cl)).collect();
+        e = e.add_sibling_alts_for_unknown_field(&alts);
+        prog.push(tagged("sibling_alts", vec![list(vec![list(vec![st(name), alts_sx(name, &alts)])])]));
+        if r.chance(1, 6) {
+            e = e.at("inner");
+            prog.push(tagged("at", vec![st("inner")]));
+        }
+    }
+    let answer = tagged("stack", vec![obs_err(&e)]).render();
+    Case { prog: tagged("prog", prog), answer, ops: levels + 1, max_len: 1, depth_ops: 0 }
+}
+
 pub fn gen_case(r: &mut Rng, pool: &SpanPool, max_ops: usize) -> Case {
+    if r.chance(1, 8) {
+        return gen_chain_case(r);
+    }
     let mut stack: Vec<Error> = Vec::new();
     let mut prog: Vec<Sx> = Vec::new();
     let mut unknown_names: Vec<String> = Vec::new();
